@@ -81,6 +81,9 @@ def gen_case(seed, idx, tier="quick"):
         lo, hi = (par["chunk"] if par["mode"] == "chunk" else (0, L))
         if hi - lo > 10:
             spec["variant_collections"] = [specs.gen_variant_collection(rng, lo, hi, idx=str(i)) for i in range(rng.randint(1, 2))]
+    if spec.get("variant_collections") and rng.random() < 0.25:
+        # a collection that holds nothing but variant collections (e.g. VCF-derived haplotypes)
+        spec["genes"], spec["feature_collections"] = [], []
     spec["qualifiers"] = specs.gen_qualifiers(rng, keys=QUAL_KEYS, vals=QUAL_VALS, p_none=0.5)
     if "N" not in par["genome"]["seq"].upper() and rng.random() < 0.4:
         par["genome"]["alphabet"] = rng.choice(["NT_STRICT", "NT_EXTENDED", "NT_STRICT_GAPPED", "NT_STRICT_UNKNOWN"])
